@@ -664,8 +664,9 @@ def prime_cmds(rng, tier, W=64):
             if evid is None:
                 return
             ev = [evid]
-        for nn in ((0, n, n + 1) if v < (1 << W) else (n, n + 1)):
-            out.append("isPrime a=%s n=%d cls=%s %s" % (hx(v, max(on, 1) + (W // 8 if nn > n else 0)), nn, cls, " ".join(ev)))
+        # the operand length is the length of the argument: natural length and one more (zero) 8-octet unit; w=1: priIsPrimeW
+        for nn in ((0, n, n + 1) if v < (1 << 32) else (n, n + 1)):
+            out.append("isPrime a=%s %scls=%s %s" % (hx(v, max(on, 1) + (W // 8 if nn > n else 0)), "w=1 " if nn == 0 else "", cls, " ".join(ev)))
     for c in CARMICHAEL:
         f = next(d for d in range(3, 10 ** 6, 2) if c % d == 0)
         isprime(c, "carmichael", "sf=%d" % f)
@@ -703,39 +704,39 @@ def prime_cmds(rng, tier, W=64):
     # Sophie Germain test: q prime, 2q+1 prime / composite
     sg = [3, 5, 11, 23, 29, 41, 53, 83, 89, 113, 131, 7, 13, 17, 19, 31, 37]
     for qv in sg:
-        out.append("sgPrime a=%s n=1 cls=small" % hx(qv, W // 8))
+        out.append("sgPrime a=%s cls=small" % hx(qv, W // 8))
     for bits in (31, 32, 33, 60):
         for _ in range(2 if tier == "quick" else 6):
             qv = rand_prime(rng, bits)
-            out.append("sgPrime a=%s n=%d cls=seeded-%d" % (hx(qv, words(qv, W) * (W // 8)), words(qv, W), bits))
+            out.append("sgPrime a=%s cls=seeded-%d" % (hx(qv, words(qv, W) * (W // 8)), bits))
         # a genuine Sophie Germain prime of this size
         for _ in range(20000):
             qv = rand_prime(rng, bits)
             if pricert.is_prp(2 * qv + 1):
-                out.append("sgPrime a=%s n=%d cls=sg-%d" % (hx(qv, words(qv, W) * (W // 8)), words(qv, W), bits))
+                out.append("sgPrime a=%s cls=sg-%d" % (hx(qv, words(qv, W) * (W // 8)), bits))
                 break
     # next primes: multi-word starts below the oracle's bound, leading zero words, limited trials
     starts = [(5, 2, 10, "small-2words"), (5, 2, 2, "small-2words"), (3, 2, 1, "small-2words"), (7, 3, 5, "small-3words"), (2, 1, 0, "two"),
               (0, 1, 0, "zero"), (1, 1, 0, "one"), (4, 1, 3, "four"), (8, 1, 10, "eight"), (14, 1, 10, "no-prime-in-4-bits"), (24, 2, 10, "24")]
     for (a0, nn, bc, cls) in starts:
-        out.append("nextPrime a=%s n=%d base=%d iter=20 trials=-1 cls=%s" % (hx(a0, nn * (W // 8)), nn, bc, cls))
+        out.append("nextPrime a=%s base=%d iter=20 trials=-1 cls=%s" % (hx(a0, nn * (W // 8)), bc, cls))
     for bits in ((65, 72) if tier == "quick" else (65, 66, 70, 72, 76, 80)):
         a0 = rng.getrandbits(bits) | (1 << (bits - 1))
         nn = words(a0, W)
-        out.append("nextPrime a=%s n=%d base=%d iter=20 trials=-1 cls=seeded-%d" % (hx(a0, nn * (W // 8)), nn, rng.choice((0, 10, 100)), bits))
+        out.append("nextPrime a=%s base=%d iter=20 trials=-1 cls=seeded-%d" % (hx(a0, nn * (W // 8)), rng.choice((0, 10, 100)), bits))
         # limited trials around the position of the prime
         pnext = next_prp(a0)
         pos = (pnext - (a0 | 1)) // 2 + 1             # the prime is the pos-th candidate
         for tr, cls in ((pos, "trials=exact"), (pos - 1, "trials=one-short")):
             if tr >= 0:
-                out.append("nextPrime a=%s n=%d base=%d iter=20 trials=%d cls=%s" % (hx(a0, nn * (W // 8)), nn, 10, tr, cls))
+                out.append("nextPrime a=%s base=%d iter=20 trials=%d cls=%s" % (hx(a0, nn * (W // 8)), 10, tr, cls))
     # just below a power of two with no prime left in the bit length: 2^k - 1 composite for k = 4, 6, 8 ... start at 2^k - 1
     for k in (4, 6, 8, 9, 10, 16, 32, 64, 66, 72):
         a0 = (1 << k) - 1
         if pricert.is_prp(a0):
             continue
         nn = words(a0, W)
-        out.append("nextPrime a=%s n=%d base=%d iter=20 trials=-1 cls=top-of-%d-bits" % (hx(a0, nn * (W // 8)), nn, 10, k))
+        out.append("nextPrime a=%s base=%d iter=20 trials=-1 cls=top-of-%d-bits" % (hx(a0, nn * (W // 8)), 10, k))
     # sieve / smooth
     odd = [p for p in pricert.SMALL[1:1100]]
     for bc in (0, 1, 2, 10, 100, 1024):
@@ -746,8 +747,8 @@ def prime_cmds(rng, tier, W=64):
         for vv in vals:
             nn = words(vv, W)
             for n2 in (nn, nn + 1):
-                out.append("sieved a=%s n=%d base=%d cls=bc%d" % (hx(vv, n2 * (W // 8)), n2, bc, bc))
-                out.append("smooth a=%s n=%d base=%d cls=bc%d" % (hx(vv, n2 * (W // 8)), n2, bc, bc))
+                out.append("sieved a=%s base=%d cls=bc%d" % (hx(vv, n2 * (W // 8)), bc, bc))
+                out.append("smooth a=%s base=%d cls=bc%d" % (hx(vv, n2 * (W // 8)), bc, bc))
     out.append("basePrimes")
     return out
 
@@ -772,7 +773,7 @@ def poly_cmds(rng, tier, std_bels):
                     (7, "x^2+x+1"), (5, "x^2+1"), ((1 << 64) | 0x1B, "x^64+x^4+x^3+x+1"), ((1 << 63) | 3, "x^63+x+1"), ((1 << 65) | (1 << 18) | 1, "x^65+x^18+1")):
         nn = max(1, (vv.bit_length() + 63) // 64)
         for n2 in (nn, nn + 1):
-            out.append("ppIrred a=%s n=%d cls=%s" % (hx(vv, n2 * 8), n2, cls))
+            out.append("ppIrred a=%s cls=%s" % (hx(vv, n2 * 8), cls))
     return out
 
 
@@ -879,9 +880,9 @@ def _suite_cmds(ctx, tier):
     rng = random.Random(int(ctx.seed) * 7919 + 12)
     cmds = []
     cmds += seed_cmds(rng, "quick")[::7]
-    cmds += [c for c in prime_cmds(rng, "quick") if " cert=" not in c][::5]
+    cmds += [c for c in prime_cmds(rng, "quick") if " cert=" not in c and " w=1" not in c][::5]
     cmds += tiny_curve_cmds(rng, "quick")[::9]
-    cmds += ["belsValM m=x87000000000000000000000000000000 len=16 cls=std0", "ppIrred a=x8700000000000000000000000000000001 n=3 cls=belt"]
+    cmds += ["belsValM m=x87000000000000000000000000000000 len=16 cls=std0", "ppIrred a=x870000000000000000000000000000000100000000000000 cls=belt"]
     return ("\n".join(cmds) + "\n").encode()
 
 
